@@ -140,6 +140,18 @@ CHECKS['C18'] = dict(
          'types, kind tests with arguments, node values, deep function tests, map(K,V)/array(T) tests.',
     technique='SMT-based symbolic execution (CrossHair/z3), one generated condition per (carrier, type); z3 over the subtype table',
     design='DESIGN.md §4 C18')
+CHECKS['C01'] = dict(
+    text='For every (tree shape, template) pair of an enumerated family (78 templates: 11 axes x name/wildcard/node() tests in one- '
+         'and two-step paths, positional and last() predicates, parenthesised paths, union, text()/comment() tests; all ordered trees '
+         'of 4 elements, 5 in thorough, with a comment and a text node) the element tags are solver variables over {a,b,c} and the '
+         'positional predicate is an unbounded integer: the real XPath 1.0 and 3.1 parsers (all four in thorough) must return distinct '
+         'nodes in document order equal to a reference evaluator of the XDM axis definitions, and leave the tree unchanged. The '
+         'reference evaluator itself agrees with libxml2 on 214 812 concrete cases (validated offline, see DESIGN).',
+    note='Trusted: CrossHair str/list models, pure-Python ElementTree under the solver (real ElementTree on replay), the reference '
+         'evaluator in harness/c01.py. Out: lxml trees and libxml2 agreement for all inputs, attribute/namespace axes, trees of more '
+         'than 5 elements, predicates other than position/last().',
+    technique='SMT-based symbolic execution (CrossHair/z3): shapes and templates enumerated, labels and positions symbolic, vs XDM reference evaluator',
+    design='DESIGN.md §4 C01')
 NOT_APPLICABLE = {
     'C04': 'Quantifies over program syntax and hash seeds: no value domain to make symbolic; symbolic source text does not get through '
            'the tokenizer regex under CrossHair (600 CPU-s, len<=2, no verdict); a table-level z3 check would verify a model of the '
